@@ -467,6 +467,9 @@ class Hang(Exception):
     pass
 
 
+_ACTIVE = [None]       # the scheduler whose threads are running (one at a time per process)
+
+
 class Scheduler:
     """Run `bodies` (callables) on one real thread each.  Only the thread that
     holds the baton runs.  `start` is the first thread; `switches` is a list of
@@ -544,6 +547,17 @@ class Scheduler:
             return None
         return glob
 
+    def hand_over(self, me, to):
+        """called by the running thread `me` (from a scripted handler): thread `to` continues now; `me` goes on when
+        the baton comes back (deterministic hand-over, independent of line counts)"""
+        nxt = self._next_unfinished(to)
+        if nxt is not None and nxt != me:
+            self.cur = nxt
+            self.sems[nxt].release()
+            if not self.sems[me].acquire(timeout=20):
+                self.hang = True
+                raise Hang()
+
     def _thread(self, me):
         if not self.sems[me].acquire(timeout=30):
             self.hang = True
@@ -564,6 +578,7 @@ class Scheduler:
             self.finished.release()
 
     def run(self):
+        _ACTIVE[0] = self
         ths = [threading.Thread(target=self._thread, args=(i,), daemon=True) for i in range(self.n)]
         for th in ths:
             th.start()
@@ -701,10 +716,14 @@ def _view(fr, light=False):
         out['req_map_ok'] = (len(rq) == len(rq.environ) and list(rq) == list(rq.environ)
                              and list(rq.keys()) == list(rq.environ.keys()) and rq['PATH_INFO'] == rq.environ['PATH_INFO'])
         out['repr_has_path'] = bool(fr.get('domain')) or fr['path'] in repr(rq)   # (domain_map hides the prefix)
-        try:
-            out['ext'] = rq.verif_note             # an ext attribute lives in this request's environ
-        except AttributeError:
-            out['ext'] = None
+        ext = []
+        for nm in ('verif_note', '_verif_priv'):   # ext attributes (public and private names) live in THIS request's environ
+            try:
+                ext.append(getattr(rq, nm))
+            except AttributeError:
+                ext.append(None)
+        out['ext'] = ext
+        out['hdr_view'] = [rq.headers.get('X-T'), 'X-T' in rq.headers]      # the cached header view of THIS request
     except Exception as e:  # noqa
         out['request_error'] = type(e).__name__
     try:
@@ -754,7 +773,8 @@ def _want(fr):
     wh = fr['w_hdrs']
     flat = _flat(wh)
     return dict(path=fr['path'], qs=fr['qs'], query=sorted(q), method=fr['method'], cookie_hdr=fr['cookie'],
-                req_cookies=sorted(cq), req_map_ok=True, repr_has_path=True, ext=fr.get('w_ext'),
+                req_cookies=sorted(cq), req_map_ok=True, repr_has_path=True, ext=fr.get('w_ext') or [None, None],
+                hdr_view=[fr.get('w_xt'), fr.get('w_xt') is not None],
                 app=fr['app'], route_own=True, url_args=sorted(fr['w_url_args']),
                 hdrs=flat, hdr_map=[len(wh), sorted(wh), sorted(wh), True, flat, flat, False, 'dflt', len(wh), True],
                 cfg=fr['w_cfg'], status=fr['w_status'], status_line=fr.get('w_line'),
@@ -771,7 +791,15 @@ def _see(fr, where):
     want = _want(fr)
     if light:
         del want['route_own'], want['url_args']
-    fr['log'].append(dict(kind='see', tok=fr['tok'], where=where, got=_view(fr, light), want=want))
+    # looking is not part of the request: the framework code the look runs through is neither a pre-emption point nor
+    # counted as a step (the framework's own reads of the same things are)
+    tr = sys.gettrace()
+    sys.settrace(None)
+    try:
+        got = _view(fr, light)
+    finally:
+        sys.settrace(tr)
+    fr['log'].append(dict(kind='see', tok=fr['tok'], where=where, got=got, want=want))
 
 
 def _gen_body(fr, n):
@@ -1013,6 +1041,8 @@ def _interp_actions(fr):
             if not refused:
                 if key == 'QUERY_STRING':
                     fr['qs'] = value
+                elif key == 'HTTP_X_T':
+                    fr['w_xt'] = value
                 elif key == 'HTTP_COOKIE':
                     fr['cookie'] = value
                     fr['w_req_cookies'] = None
@@ -1027,7 +1057,8 @@ def _interp_actions(fr):
         elif kind == 'ext':
             # request.<name> = v keeps v in THIS request's environ
             app.request.verif_note = fr['tok'] + '.note'
-            fr['w_ext'] = fr['tok'] + '.note'
+            app.request._verif_priv = fr['tok'] + '.priv'        # a private name: per request just the same
+            fr['w_ext'] = [fr['tok'] + '.note', fr['tok'] + '.priv']
             try:
                 app.request.verif_never
                 missing = False
@@ -1078,7 +1109,7 @@ def _interp_actions(fr):
                 _interp_actions(inner)
             finally:
                 un()
-            for k in ('qs', 'cookie', 'w_req_cookies', 'w_ext', 'w_status', 'w_line'):
+            for k in ('qs', 'cookie', 'w_req_cookies', 'w_ext', 'w_status', 'w_line', 'w_xt', 'w_url_args', 'signed', 'form'):
                 fr[k] = inner.get(k)
             fr['log'].append(dict(kind='form', tok=fr['tok'], where='listen',
                                   got=dict(foreign=[h for h in heard if _foreign(h, fr['tok'])]), want=dict(foreign=[])))
@@ -1119,6 +1150,10 @@ def _interp_actions(fr):
                 na.setup(app.config)
             fr['apps'].append(na)
             change_options(na)
+        elif kind == 'yield_to':
+            # ['yield_to', thread]: hand the baton to that thread right here (it runs until it ends or is pre-empted)
+            if _ACTIVE[0] is not None and getattr(_tl, 'tix', None) is not None:
+                _ACTIVE[0].hand_over(_tl.tix, act[1])
         elif kind == 'copy_off':
             # the copy is an object of its own: taking the stock cache-invalidation listener off the COPY must leave
             # this request's (and every other request's) invalidation in place
@@ -1135,6 +1170,8 @@ def _interp_actions(fr):
         elif kind == 'copy':
             cp = app.request.copy()
             cp.environ['PATH_INFO'] = '/r/COPY' + fr['tok']
+            cp.environ['HTTP_X_T'] = 'copy-' + fr['tok']          # the copy's headers differ from now on
+            cp.environ['HTTP_COOKIE'] = 'cc=copy' + fr['tok']
             if fr.get('readonly'):
                 cp.environ['QUERY_STRING'] = 'copy=' + fr['tok']
             else:
@@ -1145,6 +1182,7 @@ def _interp_actions(fr):
             inner = dict(app=act[1], tok=fr['tok'] + 'cc', script=act[2], qs=fr['qs'], method=fr['method'],
                          form=None, cookie=fr['cookie'], readonly=fr.get('readonly'),
                          w_ext=fr.get('w_ext'),       # (an ext attribute is an environ entry: the copy has it too)
+                         w_xt=fr.get('w_xt'),
                          w_req_cookies=fr.get('w_req_cookies'), signed=fr.get('signed'))
             if len(act) > 3:
                 inner.update(act[3])          # e.g. {'hook_input': True}
@@ -1353,6 +1391,8 @@ def do_call(apps, call, log, environ=None, path=None):
             env['HTTP_ACCEPT'] = call['accept']
         if call.get('readonly'):
             env['ombott.request.readonly'] = True
+        if call.get('xt'):
+            env['HTTP_X_T'] = call['xt']
         if call.get('conditional'):
             # headers that matter to static_file() — of THIS request only
             env['HTTP_IF_MODIFIED_SINCE'] = 'Wed, 01 Jan 2098 00:00:00 GMT'
@@ -1375,7 +1415,7 @@ def do_call(apps, call, log, environ=None, path=None):
               json_bad=call.get('json_bad'), json_nonobj=call.get('json_nonobj'), hook_input=call.get('hook_input'),
               log=log, w_hdrs={}, w_status=200, w_cookies={}, w_final='text', w_body='done:' + tok,
               handler_runs=True, file_wrapper=call.get('file_wrapper'), domain=call.get('domain'),
-              w_ext=call.get('w_ext'))
+              w_ext=call.get('w_ext'), w_xt=call.get('w_xt') or (call.get('xt') if environ is None else None))
     j = call['app']
     route = call.get('route', 'r') if environ is None else 'r'
     if route in ('rex', 're', 'int', 'float', 'path', 'static'):
@@ -1739,7 +1779,12 @@ def _solo_once(napps, use_default, max_body, call):
     apps = make_apps(napps, use_default, max_body)
     _warm(apps)
     log = []
-    s = Scheduler([lambda: do_call(apps, call, log)], 0, (), repo_trace_dir(), arr_codes())
+    body = lambda: do_call(apps, call, log)     # noqa: E731
+    if call.get('ctx_copy'):
+        import contextvars
+        ctx = contextvars.copy_context()
+        body = lambda: ctx.run(do_call, apps, call, log)     # noqa: E731
+    s = Scheduler([body], 0, (), repo_trace_dir(), arr_codes())
     s.run()
     return log, s.steps[0]
 
@@ -1848,7 +1893,13 @@ def _main_run(case, solo_steps_):
     record = not case.get('reuse')
     recd = Recorder(apps) if record else None
     before = _fingerprint(apps) if record else None
-    s = Scheduler(_bodies(case, apps, logs), case.get('start', 0) % n, switches, repo_trace_dir(), arr_codes())
+    bodies = _bodies(case, apps, logs)
+    if case.get('ctx_copy'):
+        # workers of task-based servers (asyncio.to_thread, ASGI->WSGI bridges): every worker thread runs the WSGI call
+        # inside a COPY of the context in which the applications were built — still one request per thread
+        import contextvars
+        bodies = [(lambda b=b, c=contextvars.copy_context(): c.run(b)) for b in bodies]
+    s = Scheduler(bodies, case.get('start', 0) % n, switches, repo_trace_dir(), arr_codes())
     if record:
         recd.install()
     try:
@@ -1875,6 +1926,8 @@ def run_arrangement(case):
     solo = []
     solo_steps_ = []
     for i, call in enumerate(case['calls']):
+        if case.get('ctx_copy'):
+            call = dict(call, ctx_copy=True)       # (the baseline runs in the same kind of worker)
         ck = json.dumps([napps, use_default, max_body, call], sort_keys=True)
         if ck in _SOLO_CACHE:
             lg, st = _SOLO_CACHE[ck]
